@@ -34,7 +34,7 @@ CHECKS = {
                 note='partial claim (DESIGN §4 C06): resolve() as a whole (composition of the kernels, iterative auth checks, mainline ordering), permutations of the state-set / auth-chain arguments are NOT decided; BinaryHeap / HashMap / HashSet are library models',
                 ref='DESIGN.md §4 C06'),
     'C07': dict(engine='mirsym', technique=MIRSYM,
-                text='the two ordering kernels: (1) lexicographical_topological_sort executed from MIR on every DAG over <= 3 nodes (sampled 4-node DAGs thorough) with every identifier assignment, symbolic power level and timestamp per node, all hash iteration orders: every node once, dependencies first, among ready nodes greatest power level, then earliest timestamp, then smallest event id; (2) mainline_sort on a power-level history with a side branch and three events citing any of its events or none (125 combinations, symbolic timestamps, all hash orders): ordered by the mainline position of the closest power-level ancestor (older first), then timestamp, then event id',
+                text='the ordering kernels of state resolution: (0) add_event_and_auth_chain_to_graph on every auth-event DAG over 4 events x every auth difference (1024 concrete scenarios): the graph handed to the power sort; (1) lexicographical_topological_sort executed from MIR on every DAG over <= 3 nodes (sampled 4-node DAGs thorough) with every identifier assignment, symbolic power level and timestamp per node, all hash iteration orders: every node once, dependencies first, among ready nodes greatest power level, then earliest timestamp, then smallest event id; (2) mainline_sort on a power-level history with a side branch and three events citing any of its events or none (125 combinations, symbolic timestamps, all hash orders): ordered by the mainline position of the closest power-level ancestor (older first), then timestamp, then event id',
                 note='partial claim (DESIGN §4 C07): equality of resolve() with state resolution v2 on room histories (composition of the kernels, iterative auth checks against the partial state, power-event graph construction) is outside what the engines can encode; slice::sort_by_key and BinaryHeap are library models',
                 ref='DESIGN.md §4 C07'),
     'C08': dict(engine='mirsym', technique=MIRSYM,
